@@ -192,6 +192,10 @@ def ellipse_rules(repo, rep, orc, Rr):
     ev = Evaluator(repo)
     V = sym_mat('v')
     got = ev.call_function(f, {f.params[0].name: V})
+    # the eigenvalues of the positive semi-definite 2x2 block are >= 0 in exact arithmetic: a clamp max(., 0) under the root is the identity
+    # of the exact model (it is there for rounding - and the boundary rule below asks for it)
+    from ..symcheck import strip_floor_clamps
+    got = strip_floor_clamps(got)
     ref = orc.call('ellipse', v00=V.data[0][0], v01=V.data[0][1], v11=V.data[1][1])
     names = ['semi-major', 'semi-minor', 'orientation']
     texts = ['a = sqrt((v00 + v11 + sqrt((v00-v11)^2 + 4 v01^2))/2) (larger eigenvalue of the 2x2 block)',
@@ -201,6 +205,12 @@ def ellipse_rules(repo, rep, orc, Rr):
             check_equal(rep, 'R-FORMULA', 'R-FORMULA::geodepy/statistics.py::error_ellipse::%s' % names[i], w, got.items[i], ref.items[i], texts[i])
     else:
         rep.undecided('R-FORMULA', 'R-FORMULA::geodepy/statistics.py::error_ellipse::shape', w, 'error_ellipse does not return a triple')
+    # singular covariances are inside the domain: rank-one witnesses outer(w, w) (+ an up variance)
+    wit = []
+    for v00, v01, v11 in ((1.44, -1.32, 1.21), (0.09, 0.21, 0.49), (0.36, 0.66, 1.21), (0.01, 0.09, 0.81), (4.0, -6.0, 9.0), (1.0, 1.0, 1.0), (2.25, 1.95, 1.69), (0.0169, -0.0091, 0.0049)):
+        # the squares and the product of two decimals: exactly singular as decimals, a rounding away from it as doubles
+        wit.append(('vcv = [[%g, %g, 0], [%g, %g, 0], [0, 0, 1]] (rank one)' % (v00, v01, v01, v11), [[v00, v01, 0.0], [v01, v11, 0.0], [0.0, 0.0, 1.0]]))
+    common.sqrt_boundary_rule(repo, rep, 'geodepy.statistics', 'error_ellipse', f.params[0].name, wit, 'random symmetric PSD matrices including singular ones')
     # relative error
     g = repo.func('geodepy.statistics', 'relative_error')
     rep.analysed(g)
@@ -208,7 +218,7 @@ def ellipse_rules(repo, rep, orc, Rr):
     ev = Evaluator(repo)
     ps = [p.name for p in g.params]
     A, B, Cc = sym_mat('a'), sym_mat('b'), sym_mat('k')
-    got = ev.call_function(g, {ps[0]: Rat.sym('lat'), ps[1]: Rat.sym('lon'), ps[2]: A, ps[3]: B, ps[4]: Cc})
+    got = strip_floor_clamps(ev.call_function(g, {ps[0]: Rat.sym('lat'), ps[1]: Rat.sym('lon'), ps[2]: A, ps[3]: B, ps[4]: Cc}))
     ref = orc.call('relative', lat=Rat.sym('lat'), lon=Rat.sym('lon'), var1=sym_mat('a'), var2=sym_mat('b'), cov12=sym_mat('k'))
     want = list(ref.items[:4])
     names = ['semi-major', 'semi-minor', 'orientation', 'up']
